@@ -12,6 +12,10 @@ def tiltOfJson (j : Json) : R (TiltEl Float) := do
   else if k == "d" then
     let t ← getFloats j "trace"; let d ← getFloats j "disp"
     pure (.dispersive1 t[0]! t[1]! d[0]! d[1]!)
+  else if k == "dh" then
+    -- any-order element: the abscissa is supplied (the harness' own root of the residuals), the tail is the generated one
+    let t ← getFloats j "trace"
+    pure (.dispersiveN t.toList (← getFloat j "x"))
   else throw s!"tilt kind {k}"
 
 def pairJ (p : Float × Float) : Json := Json.arr #[floatToJson p.1, floatToJson p.2]
